@@ -414,12 +414,35 @@ def _method(proj, ci, f, ctx, containers, tested_foreign, findings, stats):
     body = f.node.body
 
     def report(line, attr, level, uncovered, how, extra=""):
-        if (f.qualname, attr) in EXEMPT:
+        if (f.qualname, attr) in EXEMPT and level != "class-level container":      # (the exemption names a per-object location)
             stats["exempt"].append("%s.%s: %s" % (f.qualname, attr, EXEMPT[(f.qualname, attr)]))
             return
         findings.append(Finding(f, line, attr, level,
                                 "%s `%s` %s is computed from %s, which the re-use condition does not determine%s: a later call with other inputs gets the stale value"
                                 % (level, attr, how, ", ".join("`%s`" % u for u in sorted(uncovered)), extra)))
+
+    # ---------------- decorator caches: functools.lru_cache / cache on a method keys the result by the object's IDENTITY and
+    # the arguments; cached_property keeps the first value for the object's life.  Whatever else the body reads -- an attribute
+    # of self that methods assign after construction -- is an input the key does not determine.
+    deco = []
+    for d in f.node.decorator_list:
+        e = d.func if isinstance(d, ast.Call) else d
+        nm = e.id if isinstance(e, ast.Name) else (e.attr if isinstance(e, ast.Attribute) else "?")
+        if nm in ("lru_cache", "cache", "cached_property", "memoize", "memoized", "cached"):
+            deco.append(nm)
+    if deco and sn is not None:
+        stats["memo_stores"] += 1
+        d = set()
+        for n in ast.walk(f.node):
+            if isinstance(n, ast.Return) and n.value is not None:
+                d |= ctx.deps(n.value, False)
+        unc = {p for p in d if p.startswith(sn + ".")}
+        if unc:
+            findings.append(Finding(f, f.node.lineno, f.name, "decorator cache",
+                                    "the result of `%s` is memoised by @%s (key: the object's identity%s) but is computed from %s, which methods assign after construction: from the second call with the same arguments the value of an EARLIER state of the object is returned"
+                                    % (f.name, deco[0], " and the arguments" if deco[0] != "cached_property" else "", ", ".join("`%s`" % u for u in sorted(unc)))))
+        else:
+            stats["covered"].append("%s (@%s)" % (f.qualname, deco[0]))
 
     # ---------------- instance level: guarded regions
     regions = []      # (tests, statements in the guarded region)
@@ -493,7 +516,7 @@ def _method(proj, ci, f, ctx, containers, tested_foreign, findings, stats):
             else:
                 cov, coll = set(), None
                 d = set()
-                for a in n.args:
+                for a in list(n.args) + [k.value for k in n.keywords]:
                     d |= ctx.deps(a, True)
             unc = {p for p in d if not _covers(cov, p)}
             if unc:
